@@ -28,7 +28,9 @@ theorem ev_call_fail {F ρ w ty f args fv w1 vs w2 fl w3} (hf : EvS F ρ w f (.o
 
 /-- the `any`-typed receiver is recovered unchanged by `self.(T)` / `T(self)` -/
 theorem ev_cast_id {env : Env} {η : Hp} {F : GFile} {ρ : GEnv} {w w' : GWorld} {e : GExpr} {v : Val} {forTy : Ty} {g : GVal}
-    (he : EvS F ρ w e (.ok g w')) (hr : dynRecvTy env forTy = true) (ht : HasTy env η v forTy) (hg : VRel env η v forTy g) :
+    (he : EvS F ρ w e (.ok g w')) (hr : dynRecvTy env forTy = true) (ht : HasTy env η v forTy) (hg : VRel env η v forTy g)
+    (hE : ∀ n, forTy = .enum n → ∀ d, env.getEnum n = some d → ∀ vr, vr ∈ d.variants →
+      F.structImplements (variantGoName env n vr.1) (gid n) = true) :
     EvS F ρ w (.cast (goTy forTy) e) (.ok g w') := by
   obtain ⟨m, hm⟩ := he
   refine ⟨m + 1, fun k hk => ?_⟩
@@ -51,6 +53,23 @@ theorem ev_cast_id {env : Env} {η : Hp} {F : GFile} {ρ : GEnv} {w w' : GWorld}
     simp [goTy, convert]
   · rename_i n
     cases v <;> simp only [HasTy] at ht <;> try exact ht.elim
+    rename_i n' idx vs
+    obtain ⟨hn, _, hf⟩ := ht
+    subst hn
+    simp only [VRel] at hg
+    cases hd : env.getEnum n' with
+    | none => rw [hd] at hg; exact hg.elim
+    | some d =>
+      rw [hd] at hg hf; simp only at hg hf
+      cases hv : d.variants[idx]? with
+      | none => rw [hv] at hg; exact hg.elim
+      | some vr =>
+        rw [hv] at hg; simp only at hg
+        obtain ⟨gs, _, rfl⟩ := hg
+        have himp := hE n' rfl d hd vr (List.mem_of_getElem? hv)
+        simp [goTy, himp]
+  · rename_i n
+    cases v <;> simp only [HasTy] at ht <;> try exact ht.elim
     rename_i n' vs
     obtain ⟨hn, _, hf⟩ := ht
     subst hn
@@ -61,6 +80,10 @@ theorem ev_cast_id {env : Env} {η : Hp} {F : GFile} {ρ : GEnv} {w w' : GWorld}
       rw [hd] at hg; simp only at hg
       obtain ⟨gs, _, rfl⟩ := hg
       simp [goTy]
+  · rename_i ps r
+    cases v <;> simp only [HasTy] at ht <;> try exact ht.elim
+    simp only [VRel] at hg; subst hg
+    simp [goTy, convert]
 
 /-- what the file must contain for the vtable `(tr, forTy)` -/
 structure DynLink (env : Env) (F : GFile) (tr : String) (forTy : Ty) : Prop where
@@ -72,6 +95,9 @@ structure DynLink (env : Env) (F : GFile) (tr : String) (forTy : Ty) : Prop wher
   vtT : ∃ decl, F.structFields (dynVtableStructName tr) = some decl ∧
     decl.map (·.1) = ((traitMethodSigs env tr).getD []).map fun s => gid s.1
   nodup : (((traitMethodSigs env tr).getD []).map fun s => gid s.1).Nodup
+  /-- an enum receiver: its variant structs have the method set of the enum's interface -/
+  recv : ∀ n, forTy = .enum n → ∀ d, env.getEnum n = some d → ∀ vr, vr ∈ d.variants →
+    F.structImplements (variantGoName env n vr.1) (gid n) = true
 
 theorem slit_dyn {env : Env} {F : GFile} {tr : String} {forTy : Ty} (hl : DynLink env F tr forTy) (gd p : GVal) :
     slitValue F (dynStructName tr) [("data", gd), ("vtable", p)] =
@@ -181,7 +207,7 @@ theorem dyn_wrap_call {env : Env} {η : Hp} {F : GFile} {tr : String} {forTy : T
   have hnone : lookupG ρ (gid (Goml.Mono.traitImplFnName tr forTy s.1)) = none :=
     lookup_none_of_not_key (fun hk => hnc (hkeys _ hk))
   have hselfE : EvS F ρ gw (.var "self" anyTy) (.ok gd gw) := ev_var_some (lookup_cons_self _ _ _)
-  have hcast := ev_cast_id hselfE hrecv ht hg
+  have hcast := ev_cast_id hselfE hrecv ht hg hl.recv
   have hvars : EvLS F ρ gw ((wrapParams 0 s.2.1).map fun p => GExpr.var p.1 p.2) (.ok gargs gw) := by
     have := evl_vars (F := F) (w := gw) (wrapParams 0 s.2.1) gargs [("self", gd)]
       (by rw [length_wrapParams, hlen]) hndp (fun x hx hk => by
